@@ -20,7 +20,7 @@
     maxLe      max_clients ≤ number of slots ≤ NETCODE_MAX_CLIENTS (`set_max_clients` grows the slot list, never
                shrinks it)
 -/
-import RenetVerif.Lemmas.NcExamples
+import RenetVerif.Props.C05
 namespace RenetVerif.C10
 open RenetVerif RenetVerif.Netcode RenetVerif.Netcode.NS
 
@@ -340,6 +340,52 @@ example : f4.clients = f3.clients ∧
     | err e => exact e.elim
     | panic m => rw [hp] at this; cases this
   exact full_refuses hl.inv (by decide +kernel) (by decide +kernel) h
+
+/-- `NetcodeServer::new(0, 2, 42, [srvAddr], Secure{key})` -/
+example : ∃ s, NetcodeServer.new 0 2 42 [srvAddr] true key ckey = .ok s ∧ ServerInv s ∧ TableLen s ∧
+    s.clients.length = s.maxClients := by
+  obtain ⟨s, h⟩ := new_ne_panic (t := 0) (m := 2) (pid := 42) (pa := [srvAddr]) (sec := true) (k := key) (ck := ckey)
+    (by decide)
+  exact ⟨s, h, inv_new h⟩
+example : s2.connectTokenEntries.length = s1.connectTokenEntries.length := step_tableLen C05.inv_s1 s_response
+example : s2.clientsId.Nodup := (distinct reach_s2).2.2.2
+example : s2.connectedClients ≤ s2.clients.length := (count_le_slots reach_s2).1
+example : ∃ L, replay [Event.connected 11 addrA udA] [] = some L ∧ Distinct L ∧
+    ∀ id ad ud, (id, ad, ud) ∈ L ↔ ∃ i c, At s2.clients i c ∧ c.clientId = id ∧ c.addr = ad ∧ c.userData = ud :=
+  log_replays reach_s2
+example : TableStep s1.clients s2.clients (.clientConnected 11 addrA udA kaA) ∨
+    (ServerResult.clientConnected 11 addrA udA kaA = .none ∧ Grown s1.clients s2.clients) :=
+  table_step C05.inv_s1 s_response
+
+/-- A connects, is disconnected, connects again (same token, same address), is disconnected again -/
+theorem reach_again : ∃ s', Reach a s' [.connected 11 addrA udA, .disconnected 11 addrA, .connected 11 addrA udA,
+    .disconnected 11 addrA] := by
+  have h := again_events
+  cases hr : runLog s2 againOps with
+  | none => rw [hr] at h; cases h
+  | some x =>
+    obtain ⟨s', evs⟩ := x
+    rw [hr] at h
+    simp only [Option.map_some, Option.some.injEq] at h
+    subst h
+    exact ⟨s', reach_runLog againOps reach_s2 hr⟩
+example : ∃ ud, Event.connected 11 addrA ud ∈ [Event.connected 11 addrA udA] := by
+  obtain ⟨s', h⟩ := reach_again
+  exact at_most_one_disconnected (pre := [.connected 11 addrA udA]) (mid := [.connected 11 addrA udA]) (post := []) h
+example : Event.disconnected 11 addrA ∈ [Event.disconnected 11 addrA] := by
+  obtain ⟨s', h⟩ := reach_again
+  exact no_second_connected (pre := []) (mid := [.disconnected 11 addrA]) (post := [.disconnected 11 addrA]) h
+
+example : s2.clientAddr 11 = some addrA := (payload_routing_out reach_s2 s_sendPayload).1
+example : s2.clientAddr 11 = some addrA := (payload_routing_in reach_s2 s_payload).1
+example : sessions s2k.clients = sessions s2.clients ∨
+    (ServerResult.none = .clientDisconnected connA.clientId addrA none ∧ s2k.clients = s2.clients.set 0 none) :=
+  connected_only_self reach_s2.inv (i := 0) (c := connA) (by decide +kernel) (pp_of_step s_keepalive)
+/-- B's request at the full one-slot server: whatever `handle_connection_request` returns changes no slot -/
+example : ∀ R r s', HcrOut a f3 addrB Netcode.C.NETCODE_VERSION_INFO 42 30 xnB privDataB R → HcrRes R r s' →
+    (s'.clients = f3.clients ∧ (r = .none ∨ ∃ out, r = .packetToSend addrB out ∧ IsDenied a f3 out) ∧
+      pendingFind s'.pendingClients addrB = none ∨ (s' = f3 ∧ r = .none)) :=
+  fun R r s' ho hr => full_refuses_request ho hr (by decide +kernel)
 
 end Examples
 end RenetVerif.C10
